@@ -5,6 +5,7 @@ package main
 import (
 	"go/token"
 	"go/types"
+	"strings"
 
 	"golang.org/x/tools/go/ssa"
 )
@@ -48,6 +49,15 @@ func (w *World) abstractInstant(u value) value {
 // clockInputLabel marks the inputs created by time.Now: natively the clock is not read from the replay vector, so
 // these inputs are left out of vectors (makeVector, violationVector) to keep the vf* inputs aligned.
 const clockInputLabel = "time.Now()"
+
+// schedInputPrefix marks the inputs created by chooseN (scheduler, select and map-order choices): the native run
+// does not read them from the vector either.
+const schedInputPrefix = "#"
+
+// nativeInput reports whether the native shim consumes a vector slot for this input (i.e. it came from a vf* call).
+func nativeInput(ir InputRec) bool {
+	return ir.Label != clockInputLabel && !strings.HasPrefix(ir.Label, schedInputPrefix)
+}
 
 func (w *World) abstractNow() value {
 	t := w.newInput(clockInputLabel, 64)
